@@ -112,7 +112,10 @@ PathRules(c, p) ==
             i \in {j \in 1..Len(p.idem) : ~(p.idem[j].ret = "nil" /\ p.idem[j].changed = << >> /\ p.idem[j].writes3 = 0)}}
     (* ---- refused until ready ---- *)
     \cup {Row("C13.refusedUntilReady", "", p.pre[i].op, p.pre[i].phase) :
-            i \in {j \in 1..Len(p.pre) : ~(p.pre[j].ret # "nil" /\ p.pre[j].writes = 0 /\ ~p.pre[j].presented)}}
+            i \in {j \in 1..Len(p.pre) : ~(p.pre[j].ret # "nil" /\ ~p.pre[j].presented
+                                          \* writes to the store during the refused call are the call's own - except after a start whose context ended
+                                          \* mid-migration: the migration it left behind may still be writing while the call is refused
+                                          /\ (p.pre[j].writes = 0 \/ (p.pre[j].phase = "failed" /\ \E k \in 1..Len(p.starts) : p.starts[k].fault = "ctxCancel")))}}
     \cup {Row("conf", "", p.pre[i].op, p.pre[i].phase) :
             i \in {j \in 1..Len(p.pre) : p.pre[j].ret # RefusalClass(p.pre[j].op, p.pre[j].phase)}}
     (* ---- ready announced once, with the outcome, to the listeners registered before Start ---- *)
